@@ -2,8 +2,6 @@ package sim
 
 import "github.com/blugelabs/bluge/index/mergeplan"
 
-func armOSFault(t *DirTrace, f string) {}
-func disarmOSFault(t *DirTrace)        {}
 
 // installPlanMonitors wraps the planner's option hooks. The CalcBudget
 // wrapper is also a gate: the merger parks there after it read the root and
